@@ -19,99 +19,235 @@ theorem unhex_hexDigit (n : Nat) : unhex (hexDigit n) = n := by
   unfold unhex hexDigit
   split <;> split <;> omega
 
-/-- decoder of one escaped byte (inverse of `esc` on its image) -/
-def unesc : Str → Option (Nat × Str)
+/-- the byte a C-style escape letter stands for (`\"`, `\\`, `\a` …) -/
+def cesc (e : Nat) : Option Nat :=
+  if e = 34 then some 34 else if e = 92 then some 92 else if e = 97 then some 7 else if e = 98 then some 8
+  else if e = 102 then some 12 else if e = 110 then some 10 else if e = 114 then some 13 else if e = 116 then some 9
+  else if e = 118 then some 11 else none
+
+def hx2 (a b : Nat) : Nat := unhex a * 16 + unhex b
+
+/-- reader of a quoted string body up to and including the closing quote: (decoded bytes, rest) -/
+def unq : Str → Option (Str × Str)
   | [] => none
   | c :: r =>
-    if c = 92 then
+    if c = 34 then some ([], r)
+    else if c = 92 then
       match r with
       | [] => none
-      | d :: r' =>
-        if d = 34 then some (34, r')
-        else if d = 92 then some (92, r')
-        else if d = 97 then some (7, r')
-        else if d = 98 then some (8, r')
-        else if d = 102 then some (12, r')
-        else if d = 110 then some (10, r')
-        else if d = 114 then some (13, r')
-        else if d = 116 then some (9, r')
-        else if d = 118 then some (11, r')
-        else if d = 120 then
-          match r' with
-          | h :: l :: r'' => some (unhex h * 16 + unhex l, r'')
+      | e :: r1 =>
+        if e = 120 then
+          match r1 with
+          | h :: l :: r2 => (unq r2).map (fun p => (hx2 h l :: p.1, p.2))
           | _ => none
-        else none
-    else if c = 34 then none
-    else some (c, r)
+        else if e = 117 then
+          match r1 with
+          | d3 :: d2 :: d1 :: d0 :: r2 =>
+            (unq r2).map (fun p => (GV.Spec.Utf8.encodeScalar (hx2 d3 d2 * 256 + hx2 d1 d0) ++ p.1, p.2))
+          | _ => none
+        else if e = 85 then
+          match r1 with
+          | d7 :: d6 :: d5 :: d4 :: d3 :: d2 :: d1 :: d0 :: r2 =>
+            (unq r2).map (fun p => (GV.Spec.Utf8.encodeScalar
+              (((hx2 d7 d6 * 256 + hx2 d5 d4) * 256 + hx2 d3 d2) * 256 + hx2 d1 d0) ++ p.1, p.2))
+          | _ => none
+        else
+          match cesc e with
+          | some b => (unq r1).map (fun p => (b :: p.1, p.2))
+          | none => none
+    else (unq r).map (fun p => (c :: p.1, p.2))
 
-theorem unesc_esc (b : Nat) (x : Str) : unesc (esc b ++ x) = some (b, x) := by
+theorem unq_esc (b : Nat) (y : Str) : unq (esc b ++ y) = (unq y).map (fun p => (b :: p.1, p.2)) := by
   unfold esc
   split
-  · next h => subst h; simp [unesc]
+  · next h => subst h; rw [List.cons_append, unq.eq_def]; simp [cesc]
   split
-  · next h => subst h; simp [unesc]
+  · next h => subst h; rw [List.cons_append, unq.eq_def]; simp [cesc]
   split
-  · next h => subst h; simp [unesc]
+  · next h => subst h; rw [List.cons_append, unq.eq_def]; simp [cesc]
   split
-  · next h => subst h; simp [unesc]
+  · next h => subst h; rw [List.cons_append, unq.eq_def]; simp [cesc]
   split
-  · next h => subst h; simp [unesc]
+  · next h => subst h; rw [List.cons_append, unq.eq_def]; simp [cesc]
   split
-  · next h => subst h; simp [unesc]
+  · next h => subst h; rw [List.cons_append, unq.eq_def]; simp [cesc]
   split
-  · next h => subst h; simp [unesc]
+  · next h => subst h; rw [List.cons_append, unq.eq_def]; simp [cesc]
   split
-  · next h => subst h; simp [unesc]
+  · next h => subst h; rw [List.cons_append, unq.eq_def]; simp [cesc]
   split
-  · next h => subst h; simp [unesc]
+  · next h => subst h; rw [List.cons_append, unq.eq_def]; simp [cesc]
   split
-  · next h1 h2 _ _ _ _ _ _ _ h => simp [unesc, h1, h2]
-  · simp [unesc, unhex_hexDigit]
-    omega
+  · next h1 h2 _ _ _ _ _ _ _ h =>
+    have : unq (b :: y) = (unq y).map (fun p => (b :: p.1, p.2)) := by
+      rw [unq.eq_def]; simp [h1, h2]
+    simpa using this
+  · have hb : hx2 (hexDigit (b / 16)) (hexDigit (b % 16)) = b := by
+      unfold hx2; rw [unhex_hexDigit, unhex_hexDigit]; omega
+    rw [List.cons_append, unq.eq_def]; simp [hb]
 
-theorem unesc_quote (x : Str) : unesc (34 :: x) = none := by simp [unesc]
+/-- bytes ≥ 0x80 are copied by the reader -/
+theorem unq_literal (bs : Str) (y : Str) (h : ∀ b ∈ bs, 0x80 ≤ b) :
+    unq (bs ++ y) = (unq y).map (fun p => (bs ++ p.1, p.2)) := by
+  induction bs with
+  | nil => simp
+  | cons b bs ih =>
+    have hb : 0x80 ≤ b := h b (by simp)
+    have h34 : b ≠ 34 := by omega
+    have h92 : b ≠ 92 := by omega
+    have : unq (b :: (bs ++ y)) = (unq (bs ++ y)).map (fun p => (b :: p.1, p.2)) := by
+      rw [unq.eq_def]; simp [h34, h92]
+    rw [List.cons_append, this, ih (fun x hx => h x (by simp [hx]))]
+    cases unq y <;> simp
 
-theorem quoteBody_cancel (s s' x x' : Str) (h : quoteBody s ++ x = quoteBody s' ++ x') : s = s' ∧ x = x' := by
-  induction s generalizing s' with
-  | nil =>
-    cases s' with
-    | nil => simpa [quoteBody] using h
-    | cons b' r' =>
-      exfalso
-      have := congrArg unesc h
-      simp only [quoteBody, List.append_assoc, List.cons_append, List.nil_append] at this
-      rw [unesc_quote, unesc_esc] at this
-      cases this
-  | cons b r ih =>
-    cases s' with
-    | nil =>
-      exfalso
-      have := congrArg unesc h
-      simp only [quoteBody, List.append_assoc, List.cons_append, List.nil_append] at this
-      rw [unesc_quote, unesc_esc] at this
-      cases this
-    | cons b' r' =>
-      have := congrArg unesc h
-      simp only [quoteBody, List.append_assoc] at this
-      rw [unesc_esc, unesc_esc] at this
-      injection this with this
-      injection this with hb hr
-      obtain ⟨h1, h2⟩ := ih r' hr
-      exact ⟨by rw [hb, h1], h2⟩
+theorem hx2_hex (r : Nat) (h : r < 256) : hx2 (hexDigit (r / 16)) (hexDigit (r % 16)) = r := by
+  unfold hx2; rw [unhex_hexDigit, unhex_hexDigit]; omega
+
+theorem hexN4 (r : Nat) : hexN 4 r = [hexDigit (r / 4096 % 16), hexDigit (r / 256 % 16), hexDigit (r / 16 % 16), hexDigit (r % 16)] := by
+  simp only [hexN, List.nil_append, List.cons_append, List.append_assoc]
+  have e1 : r / 16 / 16 % 16 = r / 256 % 16 := by omega
+  have e2 : r / 16 / 16 / 16 % 16 = r / 4096 % 16 := by omega
+  rw [e1, e2]
+
+theorem hexN8 (r : Nat) : hexN 8 r = [hexDigit (r / 268435456 % 16), hexDigit (r / 16777216 % 16), hexDigit (r / 1048576 % 16),
+    hexDigit (r / 65536 % 16), hexDigit (r / 4096 % 16), hexDigit (r / 256 % 16), hexDigit (r / 16 % 16), hexDigit (r % 16)] := by
+  simp only [hexN, List.nil_append, List.cons_append, List.append_assoc]
+  have e1 : r / 16 / 16 % 16 = r / 256 % 16 := by omega
+  have e2 : r / 16 / 16 / 16 % 16 = r / 4096 % 16 := by omega
+  have e3 : r / 16 / 16 / 16 / 16 % 16 = r / 65536 % 16 := by omega
+  have e4 : r / 16 / 16 / 16 / 16 / 16 % 16 = r / 1048576 % 16 := by omega
+  have e5 : r / 16 / 16 / 16 / 16 / 16 / 16 % 16 = r / 16777216 % 16 := by omega
+  have e6 : r / 16 / 16 / 16 / 16 / 16 / 16 / 16 % 16 = r / 268435456 % 16 := by omega
+  rw [e1, e2, e3, e4, e5, e6]
+
+/-- reading back an escaped or literal rune whose UTF-8 encoding is `bs` -/
+theorem unq_escRune (ip : Nat → Bool) (r : Nat) (bs y : Str) (hb : ∀ b ∈ bs, 0x80 ≤ b)
+    (henc : GV.Spec.Utf8.encodeScalar r = bs) (hr : r < 0x110000) :
+    unq (escRune ip r bs ++ y) = (unq y).map (fun p => (bs ++ p.1, p.2)) := by
+  unfold escRune
+  split
+  · exact unq_literal bs y hb
+  split
+  · next _ h4 =>
+    rw [hexN4]
+    have hv : hx2 (hexDigit (r / 4096 % 16)) (hexDigit (r / 256 % 16)) * 256
+        + hx2 (hexDigit (r / 16 % 16)) (hexDigit (r % 16)) = r := by
+      unfold hx2; simp only [unhex_hexDigit]; omega
+    rw [List.cons_append, unq.eq_def]; simp [hv, henc]
+  · rw [hexN8]
+    have hv : ((hx2 (hexDigit (r / 268435456 % 16)) (hexDigit (r / 16777216 % 16)) * 256
+        + hx2 (hexDigit (r / 1048576 % 16)) (hexDigit (r / 65536 % 16))) * 256
+        + hx2 (hexDigit (r / 4096 % 16)) (hexDigit (r / 256 % 16))) * 256
+        + hx2 (hexDigit (r / 16 % 16)) (hexDigit (r % 16)) = r := by
+      unfold hx2; simp only [unhex_hexDigit]; omega
+    rw [List.cons_append, unq.eq_def]; simp [hv, henc]
+
+open GV.Spec.Utf8 in
+/-- what `decodeL` says about the front of a string: width 1, or a well-formed sequence of 2-4 bytes ≥ 0x80
+    whose scalar value re-encodes to exactly those bytes -/
+theorem decodeL_cases (a : Nat) (t : Str) :
+    (decodeL (a :: t)).2 = 1 ∨
+    (∃ b t2, t = b :: t2 ∧ decodeL (a :: t) = (v2 a b, 2) ∧ encodeScalar (v2 a b) = [a, b] ∧ 0x80 ≤ a ∧ 0x80 ≤ b ∧ v2 a b < 0x110000) ∨
+    (∃ b c t3, t = b :: c :: t3 ∧ decodeL (a :: t) = (v3 a b c, 3) ∧ encodeScalar (v3 a b c) = [a, b, c] ∧
+        0x80 ≤ a ∧ 0x80 ≤ b ∧ 0x80 ≤ c ∧ v3 a b c < 0x110000) ∨
+    (∃ b c d t4, t = b :: c :: d :: t4 ∧ decodeL (a :: t) = (v4 a b c d, 4) ∧ encodeScalar (v4 a b c d) = [a, b, c, d] ∧
+        0x80 ≤ a ∧ 0x80 ≤ b ∧ 0x80 ≤ c ∧ 0x80 ≤ d ∧ v4 a b c d < 0x110000) := by
+  by_cases h1 : wf1 a
+  · left; simp only [decodeL, if_pos h1]
+  cases t with
+  | nil => left; simp only [decodeL, if_neg h1]
+  | cons b t2 =>
+    by_cases h2 : wf2 a b
+    · right; left
+      refine ⟨b, t2, rfl, by simp only [decodeL, if_neg h1, if_pos h2], ?_, by omega, by omega, by unfold v2; omega⟩
+      unfold encodeScalar v2
+      rw [if_neg (by omega), if_pos (by omega)]
+      simp only [List.cons.injEq, and_true]
+      exact ⟨by omega, by omega⟩
+    cases t2 with
+    | nil => left; simp only [decodeL, if_neg h1, if_neg h2]
+    | cons c t3 =>
+      by_cases h3 : wf3 a b c
+      · right; right; left
+        refine ⟨b, c, t3, rfl, by simp only [decodeL, if_neg h1, if_neg h2, if_pos h3], ?_, by omega, by omega, by omega,
+          by unfold v3; omega⟩
+        unfold encodeScalar v3
+        rw [if_neg (by omega), if_neg (by omega), if_pos (by omega)]
+        simp only [List.cons.injEq, and_true]
+        exact ⟨by omega, by omega, by omega⟩
+      cases t3 with
+      | nil => left; simp only [decodeL, if_neg h1, if_neg h2, if_neg h3]
+      | cons d t4 =>
+        by_cases h4 : wf4 a b c d
+        · right; right; right
+          refine ⟨b, c, d, t4, rfl, by simp only [decodeL, if_neg h1, if_neg h2, if_neg h3, if_pos h4], ?_, by omega, by omega,
+            by omega, by omega, by unfold v4; omega⟩
+          unfold encodeScalar v4
+          rw [if_neg (by omega), if_neg (by omega), if_neg (by omega)]
+          simp only [List.cons.injEq, and_true]
+          exact ⟨by omega, by omega, by omega, by omega⟩
+        · left; simp only [decodeL, if_neg h1, if_neg h2, if_neg h3, if_neg h4]
+
+theorem quoteAux_skip (ip : Nat → Bool) (bs t : Str) : quoteAux ip bs.length (bs ++ t) = quoteAux ip 0 t := by
+  induction bs with
+  | nil => rfl
+  | cons b bs ih => simpa [quoteAux] using ih
+
+/-- the reader inverts the quoting loop, whatever follows the closing quote -/
+theorem unq_quoteAux (ip : Nat → Bool) (n : Nat) : ∀ (s x : Str), s.length ≤ n → unq (quoteAux ip 0 s ++ x) = some (s, x) := by
+  induction n with
+  | zero =>
+    intro s x hs
+    have : s = [] := List.eq_nil_of_length_eq_zero (by omega)
+    subst this
+    simp [quoteAux, unq.eq_def]
+  | succ n ih =>
+    intro s x hs
+    cases s with
+    | nil => simp [quoteAux, unq.eq_def]
+    | cons a t =>
+      simp only [List.length_cons] at hs
+      rcases decodeL_cases a t with h1 | ⟨b, t2, rfl, hd, henc, ha, hb, hr⟩ | ⟨b, c, t3, rfl, hd, henc, ha, hb, hc, hr⟩ |
+          ⟨b, c, d, t4, rfl, hd, henc, ha, hb, hc, hd', hr⟩
+      · simp only [quoteAux, h1, if_true, List.append_assoc]
+        rw [unq_esc, ih t x (by omega)]
+        rfl
+      · simp only [quoteAux, hd]
+        rw [if_neg (by decide)]
+        simp only [List.take, Nat.reduceSub, List.append_assoc]
+        rw [unq_escRune ip _ [a, b] _ (by intro z hz; simp at hz; rcases hz with rfl | rfl; exacts [ha, hb]) henc hr,
+          ih t2 x (by simp only [List.length_cons] at hs; omega)]
+        rfl
+      · simp only [quoteAux, hd]
+        rw [if_neg (by decide)]
+        simp only [List.take, Nat.reduceSub, List.append_assoc]
+        rw [unq_escRune ip _ [a, b, c] _ (by intro z hz; simp at hz; rcases hz with rfl | rfl | rfl; exacts [ha, hb, hc]) henc hr,
+          ih t3 x (by simp only [List.length_cons] at hs; omega)]
+        rfl
+      · simp only [quoteAux, hd]
+        rw [if_neg (by decide)]
+        simp only [List.take, Nat.reduceSub, List.append_assoc]
+        rw [unq_escRune ip _ [a, b, c, d] _ (by intro z hz; simp at hz; rcases hz with rfl | rfl | rfl | rfl; exacts [ha, hb, hc, hd']) henc hr,
+          ih t4 x (by simp only [List.length_cons] at hs; omega)]
+        rfl
 
 /-- a quoted string can be split off the front of any text: Go quoting is self-delimiting -/
-theorem quote_cancel (s s' x x' : Str) (h : quote s ++ x = quote s' ++ x') : s = s' ∧ x = x' := by
+theorem quote_cancel (ip : Nat → Bool) (s s' x x' : Str) (h : quote ip s ++ x = quote ip s' ++ x') : s = s' ∧ x = x' := by
   unfold quote at h
   simp only [List.cons_append] at h
   injection h with _ h
-  exact quoteBody_cancel s s' x x' h
+  have := congrArg unq h
+  rw [unq_quoteAux ip s.length s x (Nat.le_refl _), unq_quoteAux ip s'.length s' x' (Nat.le_refl _)] at this
+  injection this with this
+  injection this with h1 h2
+  exact ⟨h1, h2⟩
 
-/-- `strconv.Quote` (as modelled) is injective -/
-theorem quote_injective (s s' : Str) (h : quote s = quote s') : s = s' := by
-  have := quote_cancel s s' [] [] (by simpa using h)
+/-- `strconv.Quote` (as modelled: all byte strings, any `IsPrint`) is injective -/
+theorem quote_injective (ip : Nat → Bool) (s s' : Str) (h : quote ip s = quote ip s') : s = s' := by
+  have := quote_cancel ip s s' [] [] (by simpa using h)
   exact this.1
 
-theorem tagsRest_cancel (l l' : List Str) (x x' : Str) (h : tagsRest l ++ x = tagsRest l' ++ x') : l = l' ∧ x = x' := by
+theorem tagsRest_cancel (ip : Nat → Bool) (l l' : List Str) (x x' : Str) (h : tagsRest ip l ++ x = tagsRest ip l' ++ x') : l = l' ∧ x = x' := by
   induction l generalizing l' with
   | nil =>
     cases l' with
@@ -124,11 +260,11 @@ theorem tagsRest_cancel (l l' : List Str) (x x' : Str) (h : tagsRest l ++ x = ta
       simp only [tagsRest, List.append_assoc, List.cons_append, List.nil_append] at h
       injection h with _ h
       injection h with _ h
-      obtain ⟨h1, h2⟩ := quote_cancel a b _ _ h
+      obtain ⟨h1, h2⟩ := quote_cancel ip a b _ _ h
       obtain ⟨h3, h4⟩ := ih r' h2
       exact ⟨by rw [h1, h3], h4⟩
 
-theorem tagsElems_cancel (l l' : List Str) (x x' : Str) (h : tagsElems l ++ x = tagsElems l' ++ x') : l = l' ∧ x = x' := by
+theorem tagsElems_cancel (ip : Nat → Bool) (l l' : List Str) (x x' : Str) (h : tagsElems ip l ++ x = tagsElems ip l' ++ x') : l = l' ∧ x = x' := by
   cases l with
   | nil =>
     cases l' with
@@ -139,11 +275,11 @@ theorem tagsElems_cancel (l l' : List Str) (x x' : Str) (h : tagsElems l ++ x = 
     | nil => simp [tagsElems, quote] at h
     | cons b r' =>
       simp only [tagsElems, List.append_assoc] at h
-      obtain ⟨h1, h2⟩ := quote_cancel a b _ _ h
-      obtain ⟨h3, h4⟩ := tagsRest_cancel r r' _ _ h2
+      obtain ⟨h1, h2⟩ := quote_cancel ip a b _ _ h
+      obtain ⟨h3, h4⟩ := tagsRest_cancel ip r r' _ _ h2
       exact ⟨by rw [h1, h3], h4⟩
 
-theorem renderTags_cancel (t t' : Option (List Str)) (x x' : Str) (h : renderTags t ++ x = renderTags t' ++ x') :
+theorem renderTags_cancel (ip : Nat → Bool) (t t' : Option (List Str)) (x x' : Str) (h : renderTags ip t ++ x = renderTags ip t' ++ x') :
     t = t' ∧ x = x' := by
   cases t with
   | none =>
@@ -155,51 +291,42 @@ theorem renderTags_cancel (t t' : Option (List Str)) (x x' : Str) (h : renderTag
     | none => simp [renderTags, litNil, litOpen] at h
     | some l' =>
       simp only [renderTags, List.append_assoc] at h
-      obtain ⟨h1, h2⟩ := tagsElems_cancel l l' _ _ (List.append_cancel_left h)
+      obtain ⟨h1, h2⟩ := tagsElems_cancel ip l l' _ _ (List.append_cancel_left h)
       exact ⟨by rw [h1], h2⟩
 
-theorem commonKey_cancel (c c' : Cfg) (x x' : Str) (h : commonKey c ++ x = commonKey c' ++ x') : c = c' ∧ x = x' := by
+theorem commonKey_cancel (ip : Nat → Bool) (c c' : Cfg) (x x' : Str) (h : commonKey ip c ++ x = commonKey ip c' ++ x') : c = c' ∧ x = x' := by
   unfold commonKey at h
   simp only [List.append_assoc] at h
-  obtain ⟨e1, h⟩ := quote_cancel _ _ _ _ (List.append_cancel_left h)
-  obtain ⟨e2, h⟩ := quote_cancel _ _ _ _ (List.append_cancel_left h)
-  obtain ⟨e3, h⟩ := quote_cancel _ _ _ _ (List.append_cancel_left h)
-  obtain ⟨e4, h⟩ := quote_cancel _ _ _ _ (List.append_cancel_left h)
-  obtain ⟨e5, h⟩ := renderTags_cancel _ _ _ _ (List.append_cancel_left h)
-  obtain ⟨e6, h⟩ := quote_cancel _ _ _ _ (List.append_cancel_left h)
+  obtain ⟨e1, h⟩ := quote_cancel ip _ _ _ _ (List.append_cancel_left h)
+  obtain ⟨e2, h⟩ := quote_cancel ip _ _ _ _ (List.append_cancel_left h)
+  obtain ⟨e3, h⟩ := quote_cancel ip _ _ _ _ (List.append_cancel_left h)
+  obtain ⟨e4, h⟩ := quote_cancel ip _ _ _ _ (List.append_cancel_left h)
+  obtain ⟨e5, h⟩ := renderTags_cancel ip _ _ _ _ (List.append_cancel_left h)
+  obtain ⟨e6, h⟩ := quote_cancel ip _ _ _ _ (List.append_cancel_left h)
   simp only [List.cons_append, List.nil_append] at h
   injection h with _ h
   refine ⟨?_, h⟩
   cases c; cases c'
   simp_all
 
-/-- the text handed to `path.Clean` determines the configuration and the import path -/
-theorem rawKey_injective (c c' : Cfg) (p p' : Str) (h : rawKey c p = rawKey c' p') : c = c' ∧ p = p' := by
-  unfold rawKey at h
+/-- the (repaired) key determines the configuration and the import path -/
+theorem packageKey_injective (ip : Nat → Bool) (c c' : Cfg) (p p' : Str) (h : packageKey ip c p = packageKey ip c' p') :
+    c = c' ∧ p = p' := by
+  unfold packageKey at h
   have h := List.append_cancel_left h
   injection h with _ h
-  obtain ⟨e1, h⟩ := commonKey_cancel c c' _ _ h
+  obtain ⟨e1, h⟩ := commonKey_cancel ip c c' _ _ h
   injection h with _ h
   exact ⟨e1, h⟩
 
-theorem packageKey_eq (c : Cfg) (p : Str) : packageKey c p = clean (rawKey c p) := by
-  unfold packageKey pathJoin rawKey
-  have h1 : ([litPackage, commonKey c, p].map List.length).sum ≠ 0 := by simp [litPackage]
+/-- REPAIRED DEFECT: the old key is `path.Clean` of the new one -/
+theorem packageKeyOld_eq (ip : Nat → Bool) (c : Cfg) (p : Str) : packageKeyOld ip c p = clean (packageKey ip c p) := by
+  unfold packageKeyOld pathJoin packageKey
+  have h1 : ([litPackage, commonKey ip c, p].map List.length).sum ≠ 0 := by simp [litPackage]
   rw [if_neg h1]
   congr 1
   simp [joinRaw, litPackage]
 
-theorem pathJoin_single_clean (x : Str) : pathJoin [clean x] = clean x := by
-  unfold pathJoin
-  by_cases h : clean x = []
-  · simp [h]
-  · have : ([clean x].map List.length).sum ≠ 0 := by simpa using h
-    rw [if_neg this]
-    simp [joinRaw, h, clean_idempotent]
-
-/-- `cachedPath(packageKey)`: the second `path.Join` (cache.go:68) changes nothing (idempotence of Clean) -/
-theorem cachedPath_eq {P : Type} (E : Env P) (c : Cfg) (p : Str) : cachedPath E c p = E.h (packageKey c p) := by
-  unfold cachedPath
-  rw [packageKey_eq, pathJoin_single_clean]
+theorem cachedPath_eq {P : Type} (E : Env P) (c : Cfg) (p : Str) : cachedPath E c p = E.h (packageKey E.isPrint c p) := rfl
 
 end GV.Cache
